@@ -80,14 +80,24 @@ Theorem C13_bad_arity_rejected : forall half t w c,
 Proof. exact bad_arity_rejected. Qed.
 Print Assumptions C13_bad_arity_rejected.
 
+(* accepted nesting depths: the one of the type; MULTIPOINT also in the OGC form with one parenthesised
+   coordinate per point (depth 2) after repair D41 *)
 Theorem C13_wrong_depth_rejected : forall half t w,
-  body_depth (w_body w) <> depth_of t -> read half t w = Err ValueError.
+  ~ (body_depth (w_body w) = depth_of t \/ (t = TMPoint /\ body_depth (w_body w) = 2%nat)) ->
+  read half t w = Err ValueError.
 Proof. exact wrong_depth_rejected. Qed.
 Print Assumptions C13_wrong_depth_rejected.
 
+(* ... and that form reads as the flat one does (what Shapely 2 writes for a MultiPoint is read back) *)
+Theorem C13_multipoint_nested_reads : forall half zm up (ts : list tuple),
+  read half TMPoint (mkwkt (Some TMPoint) up zm (W2 (map (fun t => [t]) ts))) =
+  read half TMPoint (mkwkt (Some TMPoint) up zm (W1 ts)).
+Proof. exact multipoint_nested_reads. Qed.
+Print Assumptions C13_multipoint_nested_reads.
+
 (* everything that passes the gate has the keyword, depth and arities of its type *)
 Theorem C13_gate_sound : forall t w, gate t w = true ->
-  w_tag w = Some t /\ body_depth (w_body w) = depth_of t /\
+  w_tag w = Some t /\ (body_depth (w_body w) = depth_of t \/ (t = TMPoint /\ body_depth (w_body w) = 2%nat)) /\
   Forall (fun c => (2 <= length c <= 4)%nat) (all_tuples (w_body w)).
 Proof. exact gate_inv. Qed.
 Print Assumptions C13_gate_sound.
@@ -114,6 +124,17 @@ Theorem C13_z_four_digits_read_exactly :
   inr (Ok (GMPoint [mkc 6500 100 (Some 12345678); mkc 1000 500 None], -3)).
 Proof. exact z_four_digits_read_exactly. Qed.
 Print Assumptions C13_z_four_digits_read_exactly.
+
+(* regression for repair D41 (character level): the text Shapely 2 writes for a MultiPoint *)
+Theorem C13_multipoint_nested_chars :
+  from_wkt_chars TMPoint (chars "MULTIPOINT ((0.5 1.0), (2.0 3.5))") =
+  from_wkt_chars TMPoint (chars "MULTIPOINT(0.5 1.0, 2.0 3.5)") /\
+  from_wkt_chars TMPoint (chars "MULTIPOINT Z ((0.5 1.0 7.0), (2.0 3.5 8.0))") =
+  inr (Ok (GMPoint [mkc 5 10 (Some 70); mkc 20 35 (Some 80)], -1)) /\
+  from_wkt_chars TMPoint (chars "MULTIPOINT((0.5 1.0, 2.0 3.5))") = inr (Err ValueError) /\
+  parse_wkt_chars (chars "MULTIPOINT ((0.5 1.0), (2.0 3.5))") = from_wkt_chars TMPoint (chars "MULTIPOINT(0.5 1.0, 2.0 3.5)").
+Proof. exact multipoint_nested_chars. Qed.
+Print Assumptions C13_multipoint_nested_chars.
 
 Theorem C13_char_level_examples :
   from_wkt_chars TPoint (chars "POINT(1.0 2.0 150.5)") = inr (Ok (GPoint (mkc 10 20 (Some 1505)), -1)) /\
